@@ -9,7 +9,7 @@ Import ListNotations.
 Definition is_tmpl (ly : layer) (x k y : nat) : Prop := In ((x, k), (y, 0)) (ledges ly).
 
 Definition single (o : op) : Prop :=
-  match o with AddEdges _ _ | RemoveEdges _ _ => False | _ => True end.
+  match o with AddEdges _ _ | RemoveEdges _ _ | Orient _ _ => False | _ => True end.   (* Orient = RemoveEdge ; AddEdge *)
 
 (* the template an edge call (u, v) denotes in a layer (after putting an unordered pair into canonical order) *)
 Definition call_tmpl (ly : layer) (u v : tnode) : nat * nat * nat :=
@@ -145,5 +145,8 @@ Proof.
     + rewrite filter_In. cbn [fst snd]. rewrite andb_true_iff, !Nat.leb_le. intuition lia.
   - (* Copy *)
     inversion E; subst s'. split; [reflexivity|].
+    intros j ly ly' Hj Hj' x k y. rewrite Hj in Hj'. inversion Hj'; subst. tauto.
+  - (* HasEdge *)
+    destruct (query_has_edge s i u v); inversion E; subst s'. split; [reflexivity|].
     intros j ly ly' Hj Hj' x k y. rewrite Hj in Hj'. inversion Hj'; subst. tauto.
 Qed.
